@@ -1,6 +1,8 @@
 package model
 
 import (
+	"math"
+	"strconv"
 	"strings"
 
 	gpb "github.com/openconfig/gnmi/proto/gnmi"
@@ -177,7 +179,12 @@ func ParseKey(lt *LType, s string) (Val, error) {
 	}
 	switch k {
 	case KDec:
-		return ParseJSONValue(lt, s)
+		// tolerant: ygot writes decimal keys with %g; any finite float text identifies the value
+		f, err := strconv.ParseFloat(s, 64)
+		if err != nil || math.IsInf(f, 0) || math.IsNaN(f) {
+			return Val{}, errf("cannot parse key %q as decimal64", s)
+		}
+		return Val{K: KDec, F: f, FD: lt.FD}, nil
 	case KStr:
 		return Val{K: KStr, S: s}, nil
 	case KBool:
